@@ -95,6 +95,15 @@ def run(ctx, tier):
     from .entries import make_interp
     from .rules_c08 import native_args_rule
     native_args_rule(ctx, make_interp(ctx.model), 'C02.R5', 'C02.R5')
+    # "inside a region" means the closed rectangle / disc: the point predicates and the corner normalisation they rely on
+    from . import rules_c17
+    for rid in ('C17.R1', 'C17.R2'):
+        ctx.rule(rid, 'C17: ' + ('containsPoint is exactly the closed rectangle / closed disc test' if rid.endswith('1') else
+                                 'constructor normalisation x1<=x2, y1<=y2'), floor=4)
+    I17 = make_interp(ctx.model, modular=False)
+    I17.merge_ifs = False
+    rules_c17.point_rules(ctx, I17)
+    rules_c17.ctor_rules(ctx, I17)
     ctx.assume('"destination inside a region" is the abstract outcome of Region.containsPoint (geometry: C17; '
                'position conversion: C08)')
     ctx.assume('both values of g90InfluencesExtruder are covered: the setting is a free boolean of the initial state')
